@@ -3,6 +3,8 @@
 import json, sys
 pid, suffix = sys.argv[1], sys.argv[2]
 taken = sys.argv[3:]
+import os
+everything = open('/tmp/sw/all-mechanisms.txt').read() if os.path.exists('/tmp/sw/all-mechanisms.txt') and suffix not in ('a','b','c') else ""
 p = next(json.loads(l) for l in open('/verif/properties.jsonl') if json.loads(l)['id'] == pid)
 wt = f"/tmp/sw/{pid}-{suffix}"
 anch = p['anchors']
@@ -27,6 +29,8 @@ YOUR TASK: make a change to the source code under {wt}/src that BREAKS this prop
   3. the change is REALISTIC - something that could come out of a plausible refactoring, optimisation, clean-up or well-meant bug fix, a few lines, nothing that looks like sabotage, no special-casing of magic values;
   4. it does NOT show under ordinary use. It must need something specific to manifest: a particular interleaving or arrival order, a crash or fault at a particular point, a multi-step sequence of operations, an unusual (but legal) input, a particular configuration, or two cooperating code sites that each look fine alone. Prefer a part of the property's statement or quantifier that is easy to overlook (read the whole statement: every clause is fair game), and prefer mechanisms other than the most obvious one.
 {('  5. it must be DIFFERENT in mechanism from these changes, which were already made by others: ' + '; '.join(taken)) if taken else ''}
+
+{("  6. it must also differ in mechanism from every change in this list - they were all made by others already, for this or other properties of the same crate (several people independently came up with the same few ideas, e.g. aborting the shared write transaction, caches that are not invalidated on removal, bookkeeping moved out of the actor's path; we need NEW ideas, in parts of the code the list does not touch yet):" + chr(10) + everything) if everything else ''}
 
 Then write a DEMONSTRATION: an integration test file {wt}/tests/seeded_demo.rs (one or more #[test]/#[tokio::test] functions; it may use dev-dependencies already in Cargo.toml: tokio, tempfile, rand, anyhow, etc. - nothing can be downloaded) that FAILS with your change and PASSES without it (check both; to remove the change save it with `git diff -- src > SEEDED/patch.diff` and run `git checkout -- src`, to restore it `git apply SEEDED/patch.diff`; do NOT use `git stash`: the stash is shared with other worktrees of this repository and other people use it concurrently). Run it with  cargo test --offline --test seeded_demo  (add --features verif-hooks if you use the hooks). The demonstration must fail because the property's statement is violated (assert on observable behaviour), not because of an implementation detail.
 
